@@ -469,6 +469,38 @@ pub fn run(out: &mut Out, tier: &str, seed: u64, scratch: &str) {
     // the recorded finding: an error in an expression interpolated in an f-string is located relative to the
     // interpolated text, here in the middle of a character of line 1
     inputs.push(("known:fstring-nested-span".into(), "# \u{e9}\u{e9}\u{e9}\u{e9}\u{e9}\u{e9}\u{e9}\u{e9}\u{e9}\ndef main() -> None:\n    print(f\"{1 + zzz}\")\n".into()));
+    // calls of the built-in collection / string methods and functions with every small argument count, and tuple
+    // unpacking with more or fewer names than elements: arity is the user's to get wrong, never the compiler's to index by
+    {
+        let methods = ["get", "insert", "remove", "append", "pop", "swap", "contains", "upper", "lower", "strip", "split", "replace", "join",
+            "keys", "values", "count", "index", "startswith", "endswith", "reserve", "extend", "items", "add", "find", "format", "len"];
+        let receivers = [("s", "s: str = \"a-b\""), ("xs", "xs: List[int] = [1, 2]"), ("d", "d: Dict[str, int] = {\"a\": 1}"), ("st", "st: Set[int] = {1, 2}")];
+        let argsets = ["", "\"-\"", "1", "\"-\", \"+\"", "0, 1", "\"a\", 1, 2", "1, 2, 3, 4"];
+        let mut k = 0;
+        for m in methods {
+            for (r, decl) in receivers {
+                for a in argsets {
+                    inputs.push((format!("arity:{k}"), format!("def main() -> None:\n    mut {decl}\n    v = {r}.{m}({a})\n    print(v)\n")));
+                    k += 1;
+                }
+            }
+        }
+        for f in ["len", "range", "print", "str", "int", "float", "abs", "min", "max", "sum", "sorted", "enumerate", "zip", "json_stringify", "sleep"] {
+            for a in argsets {
+                inputs.push((format!("arity-fn:{k}"), format!("def main() -> None:\n    v = {f}({a})\n    print(v)\n")));
+                k += 1;
+            }
+        }
+        for names in 1..=4usize {
+            for elems in 0..=4usize {
+                let lhs = (0..names).map(|i| format!("n{i}")).collect::<Vec<_>>().join(", ");
+                let tup = format!("({})", (0..elems).map(|i| i.to_string()).collect::<Vec<_>>().join(", "));
+                let ret = if elems == 0 { "None".to_string() } else { format!("({})", vec!["int"; elems].join(", ")) };
+                inputs.push((format!("unpack:{names}:{elems}"), format!("def pair() -> {ret}:\n    return {tup}\n\ndef main() -> None:\n    {lhs} = pair()\n    print(n0)\n")));
+                inputs.push((format!("unpack-lit:{names}:{elems}"), format!("def main() -> None:\n    {lhs} = {tup}\n    print(n0)\n")));
+            }
+        }
+    }
     for (n, src) in odd {
         inputs.push((format!("odd:{n}"), src.to_string()));
     }
